@@ -110,6 +110,95 @@ Theorem C16_fragment_partial : forall es : list gexpr, es <> [] -> Forall wf es 
 Proof. exact Proofs.fragment_G. Qed.
 Print Assumptions C16_fragment_partial.
 
+(** Characterisation: [spec_split] (Model.v, Part 3) reads the tokens the way Rust's expression grammar does
+    (operand / operator / type position; `::<..>`, qualified paths and closure parameter lists only where the
+    grammar has them) without looking at the scanner; [limit_free ts] says that no step of that reading is one of
+    the situations in which the scanner of parsing.rs is known to read differently (an operator-position `<` or
+    `|` from which its `<..>::` / `|..|` alternative would succeed, generic arguments in type position after
+    `as` / `->`, a closure binder `for<..>`).  On EVERY other token list the scanner's split is the grammar-level one.
+    (That [spec_split] is Rust's grammar is not a theorem: the check measures it against syn's full expression
+    parser on every run, including on the limit-class inputs.) *)
+Theorem C16_characterisation : forall ts : list tt, limit_free ts = true -> split_args ts = spec_result ts.
+Proof. exact Proofs.characterisation. Qed.
+Print Assumptions C16_characterisation.
+
+Theorem C16_spec_total : forall ts : list tt, spec_split ts <> SFuel.
+Proof. exact Proofs.spec_total. Qed.
+Print Assumptions C16_spec_total.
+
+Theorem C16_characterisation_example :
+  limit_free Proofs.ex_free = true /\
+  exists args, spec_split Proofs.ex_free = SOk (args, false) true /\ List.length args = 5%nat.
+Proof. exact Proofs.limit_free_example. Qed.
+Print Assumptions C16_characterisation_example.
+
+(** the recorded design limits are flagged, and the grammar-level splitter gives Rust's split on them *)
+Theorem C16_limit_classes_flagged :
+  let bitor := join_comma [[id_ "a"; pa c_bar; num "1"]; [id_ "b"; pa c_bar; num "2"]; [id_ "c"]] in
+  let cast := join_comma [[id_ "x"; id_ "as"; id_ "M"; pa c_lt; id_ "K"; pa c_comma; id_ "V"; pa c_gt]; [id_ "y"]] in
+  let ltgt := join_comma [[id_ "a"; pa c_lt; id_ "b"]; [id_ "c"; pa c_gt; pj c_colon; pa c_colon; id_ "d"]] in
+  let clos := [pa c_bar; id_ "x"; pa c_bar; pj c_minus; pa c_gt; id_ "M"; pa c_lt; id_ "K"; pa c_comma; id_ "V"; pa c_gt;
+               TGroup Brace [id_ "x"]] in
+  (limit_free bitor = false /\ view_spec bitor = SOk ([3; 3; 1]%nat, false) false)
+  /\ (limit_free cast = false /\ view_spec cast = SOk ([8; 1]%nat, false) false)
+  /\ (limit_free ltgt = false /\ view_spec ltgt = SOk ([3; 5]%nat, false) false)
+  /\ (limit_free clos = false /\ view_spec clos = SOk ([12]%nat, false) false).
+Proof. exact Proofs.limit_classes_flagged. Qed.
+Print Assumptions C16_limit_classes_flagged.
+
+(** Statelessness across arguments: once the first argument has been read, the rest of the list is split exactly
+    as if it were the whole input (no scanner state survives an argument). *)
+Theorem C16_stateless : forall ts e j l,
+  expr_parse (S (List.length ts)) ts = Ok (e, TPunct c_comma j :: l) ->
+  split_args ts =
+  match split_args l with
+  | Ok (es, tr) => Ok (e :: es, match es with [] => true | _ => tr end)
+  | Fail => Fail
+  | Fuel => Fuel
+  end.
+Proof. exact Proofs.split_stateless. Qed.
+Print Assumptions C16_stateless.
+
+(** A trailing comma changes nothing but the flag (lists are accepted with and without it, with the same arguments). *)
+Theorem C16_trailing_comma : forall ts es j, split_args ts = Ok (es, false) -> es <> [] ->
+  split_args (ts ++ [TPunct c_comma j]) = Ok (es, true).
+Proof. exact Proofs.trailing_comma. Qed.
+Print Assumptions C16_trailing_comma.
+
+(** `name =` is an alias exactly when the argument starts with a non-keyword identifier and an `=` that is not the
+    first half of `==` / `=>` ([alias_shape]). *)
+Theorem C16_alias_decision : forall F c a r, fmt_argument_parse F c = Ok (a, r) -> fa_alias a = alias_shape c.
+Proof. exact Proofs.alias_decision. Qed.
+Print Assumptions C16_alias_decision.
+
+(** Positional indices: the i-th argument the derive looks up is the i-th verbatim slice of the input. *)
+Theorem C16_index_denotes_slice : forall ts a, parse_attr ts = Ok a ->
+  exists (j0 cm : bool) srcs tr l,
+    ts = TLit (at_lit a) :: (if cm then [TPunct c_comma j0] else []) ++ l /\ joined srcs tr l
+    /\ List.length srcs = List.length (p_items (at_args a))
+    /\ forall i x, arg_by_index a i = Some x -> exists src, nth_error srcs i = Some src /\ arg_src x src.
+Proof. exact Proofs.index_denotes_slice. Qed.
+Print Assumptions C16_index_denotes_slice.
+
+(** The derive's lookups (by index whether aliased or not; by alias, else implicit capture) are format_args!'s rule. *)
+Theorem C16_lookup_is_denoted : forall a,
+  (forall i, fa_denotes (PhIndex i) (p_items (at_args a)) = DArg i <-> arg_by_index a i <> None) /\
+  (forall n, match fa_denotes (PhName n) (p_items (at_args a)) with
+             | DArg i => arg_by_name a n = arg_by_index a i /\ arg_by_name a n <> None
+             | DCapture m => m = n /\ arg_by_name a n = None
+             | DInvalid => False
+             end).
+Proof. exact Proofs.lookup_is_denoted. Qed.
+Print Assumptions C16_lookup_is_denoted.
+
+(** Pass-through delegates to exactly the argument the sole placeholder denotes for format_args!, and only when
+    that argument is the only one (or, for a name, when there is none and the name is captured). *)
+Theorem C16_passthrough_denotes : forall ph a e, transparent_expr ph a = Some e <->
+  (exists x, p_items (at_args a) = [x] /\ fa_denotes ph [x] = DArg 0 /\ e = fa_expr x)
+  \/ (exists n, p_items (at_args a) = [] /\ ph = PhName n /\ e = EIdent n).
+Proof. exact Proofs.passthrough_denotes. Qed.
+Print Assumptions C16_passthrough_denotes.
+
 (** Excluded shapes: witnesses where the scanner of the model mis-splits. *)
 
 (* a | 1, b | 2, c *)
